@@ -88,7 +88,7 @@ def C18(prog: Program, run: Run, tier: str) -> None:
 
 
 # ---------------------------------------------------------------------------------------------
-from .rules import axis, extra, forward, generic, guards, rounding, specific  # noqa: E402
+from .rules import axis, extra, findings, forward, generic, guards, rounding, specific  # noqa: E402
 
 AXIS_DESC = (
     "R-AXIS x/y axis-tag consistency: T1 tagged value in a slot of the opposite axis (Affine, xy_/yx_, BoundingBox, "
@@ -143,6 +143,7 @@ def C03(prog: Program, run: Run, tier: str) -> None:
             "direction and clipped to the right shape; empty source => empty destination; scale = min(scale2); read_shrink from scale")
     run.add(generic.rule_kind(prog, {"roi"}), "R-KIND functions named for a mid-point return half the sum of the two ends, functions named for a span/shape return their difference")
     run.floor("R-ROUND|", 10)
+    run.add(findings.boundary_sampling(prog), "R-GUARDSEQ absence-of-guard clause behind a recorded finding (see known_findings.json)")
     run.floor("R-AXIS|", 30)
 
 
@@ -222,6 +223,7 @@ def C10(prog: Program, run: Run, tier: str) -> None:
     run.add(_only(rounding.rule_round(prog, {"math", "overlap"}), "math:snap_affine", "math:maybe_int", "math:snap_scale", "overlap:_pick", "overlap:compute_axis"), ROUND_DESC)
     run.add(extra.warp_detour(prog), "R-EXHAUST pixels warped into a converted array are copied back; source/destination CRS and transform come from their own geobox")
     run.add(_only(axis.rule_axis(prog, {"overlap"}), "overlap:box_overlap", "overlap:compute_axis_overlap", "overlap:_can_paste"), AXIS_DESC)
+    run.add(findings.paste_shape_aware(prog) + findings.gdal_identity_transform(prog), "R-GUARDSEQ absence-of-guard clause behind a recorded finding (see known_findings.json)")
     run.floor("R-GUARDSEQ|", 12)
 
 
@@ -241,6 +243,7 @@ def C12(prog: Program, run: Run, tier: str) -> None:
     run.add(extra.tile_query(prog), "R-GUARDSEQ geometry queries filter with the extent of the tile at the same index; linear path maps each tile's own box through A, rounds outwards and stores under the same index; general path queries with the tile's own extent")
     run.add(_only(guards.identity_shortcircuit(prog), "geobox:GeoBoxBase.footprint"), "R-GUARDSEQ the footprint used by the general path is densified by the projection call on every branch")
     run.floor("R-EMPTY|", 1)
+    run.add(findings.lonlat_footprint_validity(prog), "R-GUARDSEQ absence-of-guard clause behind a recorded finding (see known_findings.json)")
     run.floor("R-AXIS|", 12)
 
 
@@ -256,6 +259,7 @@ def C13(prog: Program, run: Run, tier: str) -> None:
     run.add(_only(extra.explicit_beats_attribute(prog), "_xr_interop"), "R-GUARDSEQ an explicitly passed src_nodata beats the array attribute")
     run.add(axis.rule_axis(prog, {"_dask", "warp", "_blocks"}), AXIS_DESC)
     run.floor("R-FILL|", 12)
+    run.add(findings.lonlat_footprint_validity(prog), "R-GUARDSEQ absence-of-guard clause behind a recorded finding (see known_findings.json)")
     run.floor("R-API|", 15)
 
 
@@ -278,6 +282,7 @@ def C15(prog: Program, run: Run, tier: str) -> None:
     run.add(axis.rule_axis(prog, {"cog._rio"}), AXIS_DESC)
     run.add(api.rule_api(prog, {"cog._rio"}), "R-API")
     run.add(cog.rule_rio_layout(prog), "R-AXIS band-last input permuted exactly (Y,X,B)->(B,Y,X); R-GUARDSEQ one side-car memory file per layer (zip cannot truncate)")
+    run.add(findings.int64_nodata(prog), "R-GUARDSEQ absence-of-guard clause behind a recorded finding (see known_findings.json)")
     run.floor("R-GUARDSEQ|", 5)
 
 
@@ -292,6 +297,7 @@ def C16(prog: Program, run: Run, tier: str) -> None:
     run.add(extra.enclosing_projection(prog), "R-GUARDSEQ enclosing derives its pixel box from the projected region, rounded outwards, on every path")
     run.add(generic.rule_kind(prog, {"geom"}), "R-KIND functions named for a mid-point return half the sum of the two ends, functions named for a span/shape return their difference")
     run.floor("R-LATTICE|", 14)
+    run.add(findings.scale_guard_tolerance(prog), "R-GUARDSEQ absence-of-guard clause behind a recorded finding (see known_findings.json)")
     run.floor("R-GUARDSEQ|", 6)
 
 
@@ -365,6 +371,7 @@ ANCHORED = _anchored_modules()
 def _with_generic(pid, fn):
     def wrapped(prog: Program, run: Run, tier: str) -> None:
         fn(prog, run, tier)
+        run.add(findings.declared(prog, pid), "R-DECLARED findings recorded with a failing input but without a structural clause: printed for the record, not decided")
         mods = {m for m in ANCHORED.get(pid, set()) if m in prog.modules}
         run.add(generic.rule_dup(prog, mods) + generic.rule_truthy(prog, mods) + generic.rule_abseps(prog, mods) + generic.rule_localmemo(prog, mods) + generic.rule_remainder_owner(prog, mods) + generic.rule_fallback(prog, mods) + generic.rule_isclose(prog, mods) + generic.rule_signed_magnitude(prog, mods) + generic.rule_zerodiv(prog, mods) + generic.rule_densify(prog, mods) + generic.rule_termination(prog, mods) + generic.rule_intidx(prog, mods) + generic.rule_assert_vs_annotation(prog, mods) + generic.rule_precision(prog, mods), GENERIC_DESC)
 
